@@ -844,6 +844,15 @@ func (s *sim) submit(step string, opk string, i int) bool {
 		r.Tracef("%s %s t%d: already pooled, not processed again", step, opk, i)
 		return true
 	}
+	// The node's submission path (Chain.ValidateTx) asks HaveTransaction first and answers a
+	// transaction the pool "has" without processing it. Nothing in this engine puts transactions into
+	// the rejection cache, so a transaction that is not pooled must not be reported as had - an
+	// orphan reported so would never be examined again when it is re-announced.
+	if s.tp.HaveTransaction(&id) {
+		_, isOrph := m.orphans[i]
+		r.Violate("pool-views", opk, "%s: HaveTransaction(t%d) is true for a transaction that is not in the pool (waiting as an orphan: %v): the submission path answers it without processing it", step, i, isOrph)
+		return false
+	}
 	now := time.Now()
 	pooledBefore := map[int]bool{}
 	for k := range m.pooled {
